@@ -11,7 +11,7 @@ from ..core import e1
 PROPERTY = "C04"
 LEVEL = "exploration"
 RULE = (
-    "lines 'p0 MNEM p1 . UNIT p2 VALUE p3 : p4 DESCR p5' for every (mnemonic(7), unit(15), value(12), description(7)) x "
+    "lines 'p0 MNEM p1 . UNIT p2 VALUE p3 : p4 DESCR p5' for every (mnemonic(7), unit(15), value(14), description(7)) x "
     "section kind {Version, Well, Curves, Parameter, custom title, None} x padding patterns (quick: every pattern with "
     "at most two non-default pads plus the all-padded line; thorough: the full product of the six pad positions over a "
     "reduced field palette), each pad in {'', ' ', '   ', tab, ' tab '}; special forms: time-like values HH:MM[:SS] "
@@ -28,7 +28,7 @@ ASSUMPTIONS = [
 
 MNEMS = ["A", "AB12", "A B", "ÅÄ", "A_1-2", "A(1)", "A#"]
 UNITS = ["", "m", "K/M3", "hh:mm", "ft.lbf", "°C", "%", "m/s2", "(m)", "[m]", "1000 lbf", "[0,1)", "(m]", "1/32", "m[2]"]
-VALUES = ["", "x", "12", "1.5", "a b", "'q'", '"q"', "(b)", "12-34-12-34W5M", "1.5.2", "a.b", "100 ft"]
+VALUES = ["", "x", "12", "1.5", "a b", "'q'", '"q"', "(b)", "12-34-12-34W5M", "1.5.2", "a.b", "100 ft", "SEC 12,34 W5M", "(1,2)"]
 DESCRS = ["", "d", "a b", "(x) y", "1 d", "d.e", "2.5 x"]
 SECTIONS = ["Version", "Well", "Curves", "Parameter", "~Custom Section", None]
 PADS = ["", " ", "   ", "\t", " \t "]
